@@ -95,7 +95,7 @@ Qed.
 
 (* ------------------------------------------------------------------ the result the spec prescribes *)
 Definition walk_spec (fd : Z -> list Z) (t : tres) (r : list Z) : option (list Z * list Z) :=
-  match spec_text_fd fd t with Some x => Some (x, r) | None => None end.
+  match spec_text_p fd t with Some x => Some (x, r) | None => None end.
 
 (* ------------------------------------------------------------------ leaves *)
 Section Leaves.
@@ -130,13 +130,13 @@ Section Leaves.
   Proof.
     intros Hw Ht. apply andb_true_iff in Ht. destruct Ht as [Hn Ht]. apply Z.eqb_eq in Ht. subst t.
     destruct v; cbn [type_of] in *; try discriminate Hn; cbn [encode wf] in Hw |- *;
-      unfold walk_spec, spec_text_fd; cbn [json_ofw jexp_finite to_json_fd json_print].
+      unfold walk_spec, spec_text_p; cbn [json_ofw jexp_finite jexp_print].
     - rewrite ws_bool. cbn [app]. destruct (raw =? 1); reflexivity.
     - rewrite ws_byte. rewrite (rd_int_sb 1 8) by (try lia; try reflexivity; exact Hw). reflexivity.
     - rewrite ws_i16. rewrite (rd_int_sb 2 16) by (try lia; try reflexivity; exact Hw). reflexivity.
     - rewrite ws_i32. rewrite (rd_int_sb 4 32) by (try lia; try reflexivity; exact Hw). reflexivity.
     - rewrite ws_i64. rewrite (rd_int_sb 8 64) by (try lia; try reflexivity; exact Hw).
-      destruct (o_int642string o); cbn [jexp_finite to_json_fd json_print]; [rewrite quote_fmt_int|]; reflexivity.
+      destruct (o_int642string o); cbn [jexp_finite jexp_print]; reflexivity.
     - rewrite ws_double. unfold rd_uint. rewrite take_enc_int, dec_uint_enc_int.
       apply andb_true_iff in Hw. destruct Hw as [H0 H1]. apply Z.leb_le in H0. apply Z.ltb_lt in H1.
       rewrite Z.mod_small by (change (256 ^ Z.of_nat 8) with (2 ^ 64); lia).
@@ -148,9 +148,9 @@ Section Leaves.
   Proof.
     intros Hw. cbn [wf] in Hw. apply andb_true_iff in Hw. destruct Hw as [Hb Hl]. apply Z.ltb_lt in Hl.
     cbn [encode]. rewrite <- app_assoc. unfold walk_string. rewrite rd_bytes_enc by exact Hl.
-    unfold walk_spec, spec_text_fd. cbn [json_ofw].
-    destruct b; cbn [andb jexp_finite to_json_fd json_print]; [|reflexivity].
-    destruct (o_no_base64 o); cbn [negb jexp_finite to_json_fd json_print]; [reflexivity|].
+    unfold walk_spec, spec_text_p. cbn [json_ofw].
+    destruct b; cbn [andb jexp_finite jexp_print]; [|reflexivity].
+    destruct (o_no_base64 o); cbn [negb jexp_finite jexp_print]; [reflexivity|].
     rewrite quote_plain; [reflexivity|]. apply b64_encode_plain. apply bytes_okb_Forall. exact Hb.
   Qed.
 
@@ -178,14 +178,14 @@ Section Leaves.
   Qed.
 
   (* appendInt of value_mapping.go writes the spec's js_conv scalar *)
-  Lemma walk_vm_scalar_ok v r : (forall b, forallb plain (fd b) = true) -> wf v = true ->
+  Lemma walk_vm_scalar_ok v r : wf v = true ->
     walk_vm_scalar fd o (type_of v) (encode v ++ r) = walk_spec fd (jsconv_scalar o v) r.
   Proof.
-    intros Hfd Hw.
+    intros Hw.
     destruct v; cbn [type_of];
       try (change (walk_vm_scalar fd o ?t ?bs) with (walk_key_t o t bs));
       try (match goal with |- walk_key_t o ?t (encode ?k ++ r) = _ => let K := fresh in pose proof (walk_key_ok k r Hw) as K; cbn [type_of] in K; rewrite K end;
-           unfold walk_spec, spec_text_fd; cbn [key_of jsconv_scalar jexp_finite to_json_fd json_print]; reflexivity).
+           unfold walk_spec, spec_text_p; cbn [key_of jsconv_scalar jexp_finite jexp_print]; rewrite ?quote_fmt_int; reflexivity).
     (* double *)
     change (walk_vm_scalar fd o T_DOUBLE (encode (VDouble bits) ++ r)) with
       (match rd_uint 8 (encode (VDouble bits) ++ r) with
@@ -195,8 +195,8 @@ Section Leaves.
     cbn [encode wf] in *. unfold rd_uint. rewrite take_enc_int, dec_uint_enc_int.
     apply andb_true_iff in Hw. destruct Hw as [H0 H1]. apply Z.leb_le in H0. apply Z.ltb_lt in H1.
     rewrite Z.mod_small by (change (256 ^ Z.of_nat 8) with (2 ^ 64); lia).
-    unfold walk_spec, spec_text_fd. cbn [jsconv_scalar jexp_finite to_json_fd json_print].
-    destruct (f64_is_finite bits); [|reflexivity]. rewrite (quote_plain _ (Hfd bits)). reflexivity.
+    unfold walk_spec, spec_text_p. cbn [jsconv_scalar jexp_finite jexp_print].
+    destruct (f64_is_finite bits); reflexivity.
   Qed.
 End Leaves.
 
@@ -262,34 +262,40 @@ Proof.
 Qed.
 
 (* ------------------------------------------------------------------ comma bookkeeping against the canonical printer *)
-Definition pm (fd : Z -> list Z) (m : list Z * jexp) : list Z * json := (fst m, to_json_fd fd (snd m)).
 Definition mem_finite (ms : list (list Z * jexp)) : bool := forallb (fun m => jexp_finite (snd m)) ms.
 
 (* what the printer writes after the opening brace / bracket: with the comma flag set, every item is preceded by a comma *)
-Definition obj_tail (c : bool) (l : list (list Z * json)) : list Z :=
-  if c then print_mtail json_print l
-  else match l with [] => [125] | m :: l' => print_member json_print m ++ print_mtail json_print l' end.
-Definition arr_tail (c : bool) (l : list json) : list Z :=
-  if c then print_tail json_print 93 l
-  else match l with [] => [93] | x :: l' => json_print x ++ print_tail json_print 93 l' end.
+Definition obj_mems (fd : Z -> list Z) (c : bool) (l : list (list Z * jexp)) : list Z :=
+  if c then eprint_mems (jexp_print fd) l
+  else match l with [] => [] | m :: l' => eprint_member (jexp_print fd) m ++ eprint_mems (jexp_print fd) l' end.
+Definition obj_tail (fd : Z -> list Z) (c : bool) (l : list (list Z * jexp)) : list Z := obj_mems fd c l ++ [125].
+Definition arr_tail (fd : Z -> list Z) (c : bool) (l : list jexp) : list Z :=
+  if c then eprint_tail (jexp_print fd) l
+  else match l with [] => [93] | x :: l' => jexp_print fd x ++ eprint_tail (jexp_print fd) l' end.
 
-Lemma obj_tail_nil c : obj_tail c [] = [125].
+Lemma obj_tail_nil fd c : obj_tail fd c [] = [125].
 Proof. destruct c; reflexivity. Qed.
-Lemma arr_tail_nil c : arr_tail c [] = [93].
+Lemma arr_tail_nil fd c : arr_tail fd c [] = [93].
 Proof. destruct c; reflexivity. Qed.
 
-Lemma obj_tail_cons c k j l :
-  sep c ++ quote_ref k ++ 58 :: json_print j ++ obj_tail true l = obj_tail c ((k, j) :: l).
+Lemma obj_mems_cons fd c k e l :
+  sep c ++ quote_ref k ++ 58 :: jexp_print fd e ++ obj_mems fd true l = obj_mems fd c ((k, e) :: l).
 Proof.
-  destruct c; cbn [sep obj_tail print_mtail app]; unfold print_member; cbn [fst snd]; rewrite <- app_assoc; reflexivity.
+  destruct c; cbn [sep obj_mems eprint_mems app]; unfold eprint_member; cbn [fst snd]; rewrite <- app_assoc; reflexivity.
 Qed.
 
-Lemma arr_tail_cons c j l : sep c ++ json_print j ++ arr_tail true l = arr_tail c (j :: l).
+Lemma obj_tail_cons fd c k e l :
+  sep c ++ quote_ref k ++ 58 :: jexp_print fd e ++ obj_tail fd true l = obj_tail fd c ((k, e) :: l).
+Proof.
+  unfold obj_tail. rewrite <- obj_mems_cons. rewrite <- !app_assoc. cbn [app]. rewrite <- !app_assoc. reflexivity.
+Qed.
+
+Lemma arr_tail_cons fd c e l : sep c ++ jexp_print fd e ++ arr_tail fd true l = arr_tail fd c (e :: l).
 Proof. destruct c; reflexivity. Qed.
 
-Lemma print_obj l : json_print (JObj l) = 123 :: obj_tail false l.
-Proof. reflexivity. Qed.
-Lemma print_arr l : json_print (JArr l) = 91 :: arr_tail false l.
+Lemma print_obj fd l : jexp_print fd (EObj l) = 123 :: obj_tail fd false l.
+Proof. destruct l; [reflexivity|]. cbn [jexp_print]. unfold obj_tail, obj_mems. rewrite <- app_assoc. reflexivity. Qed.
+Lemma print_arr fd l : jexp_print fd (EArr l) = 91 :: arr_tail fd false l.
 Proof. reflexivity. Qed.
 
 Lemma valid_ttype_type_of v : valid_ttype (type_of v) = true.
@@ -318,7 +324,7 @@ Fixpoint unset_walk_bm (o : Z) (fs : list (fmeta * tdesc)) (bm : list Z) : list 
     else unset_walk_bm o r bm
   end.
 
-Lemma zero_text_ok fd d : json_print (to_json_fd fd (zero_of d)) = zero_text fd d.
+Lemma zero_text_ok fd d : jexp_print fd (zero_of d) = zero_text fd d.
 Proof.
   destruct d as [t|b|fs|dk dv|s de]; try reflexivity.
   cbn [zero_of zero_text]. destruct (t =? T_BOOL); [reflexivity|]. destruct (t =? T_DOUBLE); reflexivity.
@@ -330,26 +336,37 @@ Proof.
   cbn [zero_of]. destruct (t =? T_BOOL); [reflexivity|]. destruct (t =? T_DOUBLE); reflexivity.
 Qed.
 
-Lemma walk_unsets_ok fd o : forall l bm c,
-  walk_unsets fd o l bm c =
-  match unset_walk_bm o l bm with inr _ => None | inl us => Some (obj_tail c (map (pm fd) us)) end.
+Lemma walk_unsets_c_ok fd o close : forall l bm c,
+  walk_unsets_c fd o close l bm c =
+  match unset_walk_bm o l bm with inr _ => None | inl us => Some (obj_mems fd c us ++ close) end.
 Proof.
   induction l as [|f l IH]; intros bm c.
-  - cbn [walk_unsets unset_walk_bm map]. rewrite obj_tail_nil. reflexivity.
-  - cbn [walk_unsets unset_walk_bm].
-    assert (Emit : match walk_unsets fd o l bm true with
+  - cbn [walk_unsets_c unset_walk_bm]. destruct c; reflexivity.
+  - cbn [walk_unsets_c unset_walk_bm].
+    assert (Emit : match walk_unsets_c fd o close l bm true with
                    | Some tl => Some (sep c ++ quote_ref (f_key (fst f)) ++ 58 :: zero_text fd (snd f) ++ tl)
                    | None => None
                    end =
                    match (match unset_walk_bm o l bm with inl us => inl ((f_key (fst f), zero_of (snd f)) :: us) | inr c0 => inr c0 end)
-                   with inr _ => None | inl us => Some (obj_tail c (map (pm fd) us)) end).
+                   with inr _ => None | inl us => Some (obj_mems fd c us ++ close) end).
     { rewrite IH. destruct (unset_walk_bm o l bm) as [us|]; [|reflexivity].
-      cbn [map]. unfold pm at 2. cbn [fst snd]. rewrite <- obj_tail_cons, zero_text_ok. reflexivity. }
+      rewrite <- obj_mems_cons, zero_text_ok. rewrite <- !app_assoc. cbn [app]. rewrite <- !app_assoc. reflexivity. }
     destruct (negb (bm_isset bm (f_id (fst f)))); [apply IH|].
     destruct (f_req (fst f) =? 1).
     + destruct (o_write_required o); [exact Emit | reflexivity].
     + destruct ((f_req (fst f) =? 0) && o_write_default o); [exact Emit | apply IH].
 Qed.
+
+Lemma walk_unsets_is_c fd o : forall l bm c, walk_unsets fd o l bm c = walk_unsets_c fd o [125] l bm c.
+Proof.
+  induction l as [|f l IH]; intros bm c; [reflexivity|].
+  cbn [walk_unsets walk_unsets_c]. rewrite !IH. reflexivity.
+Qed.
+
+Lemma walk_unsets_ok fd o : forall l bm c,
+  walk_unsets fd o l bm c =
+  match unset_walk_bm o l bm with inr _ => None | inl us => Some (obj_tail fd c us) end.
+Proof. intros l bm c. rewrite walk_unsets_is_c, walk_unsets_c_ok. reflexivity. Qed.
 
 Lemma unset_walk_finite o : forall l p us, unset_walk o l p = inl us -> mem_finite us = true.
 Proof.
@@ -451,7 +468,7 @@ Section LoopLemmas.
       if mem_finite ms
       then match unset_walk_bm o (sort_flds fs) (bm_run fs (map fst vs) bm) with
            | inr _ => None
-           | inl us => Some (obj_tail c (map (pm fd) (ms ++ us)), r)
+           | inl us => Some (obj_tail fd c (ms ++ us), r)
            end
       else None
     end.
@@ -470,7 +487,7 @@ Section LoopLemmas.
       destruct (find_field fs id) as [f|] eqn:Ef.
       + destruct (bx (fst f)).
         * rewrite Hx. apply IH; [exact HF'|cbn in Hfuel; lia].
-        * rewrite Hx. unfold walk_spec, spec_text_fd.
+        * rewrite Hx. unfold walk_spec, spec_text_p.
           destruct (fvalw f x) as [e|e|cc]; [|reflexivity|reflexivity].
           destruct (jexp_finite e) eqn:Efin.
           -- rewrite IH by (try exact HF'; cbn in Hfuel; lia).
@@ -478,7 +495,7 @@ Section LoopLemmas.
              unfold mem_finite. cbn [forallb snd]. rewrite Efin. cbn [andb].
              fold (mem_finite ms). destruct (mem_finite ms); [|reflexivity].
              destruct (unset_walk_bm o (sort_flds fs) (bm_run fs (map fst vs) (bm_clear id bm))) as [us|]; [|reflexivity].
-             cbn [app map]. unfold pm at 2. cbn [fst snd]. rewrite <- obj_tail_cons. reflexivity.
+             cbn [app]. rewrite <- obj_tail_cons. reflexivity.
           -- destruct (members_of (map (fstepw fs) vs)) as [ms|]; [|reflexivity].
              unfold mem_finite. cbn [forallb snd]. rewrite Efin. reflexivity.
       + destruct (o_disallow_unknown o); [reflexivity|].
@@ -490,45 +507,45 @@ Section LoopLemmas.
     walk_elems rec (length es) de c (flat_map encode es ++ r) =
     match all_ok (map (json_ofw o de) es) with
     | inr _ => None
-    | inl xs => if forallb jexp_finite xs then Some (arr_tail c (map (to_json_fd fd) xs), r) else None
+    | inl xs => if forallb jexp_finite xs then Some (arr_tail fd c xs, r) else None
     end.
   Proof.
     induction es as [|x es IH]; intros c r HF.
     - cbn [length walk_elems flat_map app map all_ok forallb]. rewrite arr_tail_nil. reflexivity.
     - inversion HF as [|? ? Hx HF']; subst.
       cbn [length walk_elems flat_map map all_ok]. rewrite <- app_assoc. rewrite Hx.
-      unfold walk_spec, spec_text_fd.
+      unfold walk_spec, spec_text_p.
       destruct (json_ofw o de x) as [e|e|cc]; [|reflexivity|reflexivity].
       destruct (jexp_finite e) eqn:Efin.
       + rewrite IH by exact HF'.
         destruct (all_ok (map (json_ofw o de) es)) as [xs|]; [|reflexivity].
         cbn [forallb]. rewrite Efin. cbn [andb]. destruct (forallb jexp_finite xs); [|reflexivity].
-        cbn [map]. rewrite <- arr_tail_cons. reflexivity.
+        rewrite <- arr_tail_cons. reflexivity.
       + destruct (all_ok (map (json_ofw o de) es)) as [xs|]; [|reflexivity].
         cbn [forallb]. rewrite Efin. reflexivity.
   Qed.
 
   (* the element loop of apiJSConv.Read *)
-  Lemma walk_vm_elems_ok et : (forall b, forallb plain (fd b) = true) -> forall es c r,
+  Lemma walk_vm_elems_ok et : forall es c r,
     Forall (fun x => type_of x = et /\ wf x = true) es ->
     walk_vm_elems fd o (length es) et c (flat_map encode es ++ r) =
     match all_ok (map (jsconv_scalar o) es) with
     | inr _ => None
-    | inl xs => if forallb jexp_finite xs then Some (arr_tail c (map (to_json_fd fd) xs), r) else None
+    | inl xs => if forallb jexp_finite xs then Some (arr_tail fd c xs, r) else None
     end.
   Proof.
-    intros Hfd. induction es as [|x es IH]; intros c r HF.
+    induction es as [|x es IH]; intros c r HF.
     - cbn [length walk_vm_elems flat_map app map all_ok forallb]. rewrite arr_tail_nil. reflexivity.
     - inversion HF as [|? ? [Ht Hw] HF']; subst.
       cbn [length walk_vm_elems flat_map map all_ok]. rewrite <- app_assoc.
-      rewrite (walk_vm_scalar_ok fd o x _ Hfd Hw).
-      unfold walk_spec, spec_text_fd.
+      rewrite (walk_vm_scalar_ok fd o x _ Hw).
+      unfold walk_spec, spec_text_p.
       destruct (jsconv_scalar o x) as [e|e|cc]; [|reflexivity|reflexivity].
       destruct (jexp_finite e) eqn:Efin.
       + rewrite IH by exact HF'.
         destruct (all_ok (map (jsconv_scalar o) es)) as [xs|]; [|reflexivity].
         cbn [forallb]. rewrite Efin. cbn [andb]. destruct (forallb jexp_finite xs); [|reflexivity].
-        cbn [map]. rewrite <- arr_tail_cons. reflexivity.
+        rewrite <- arr_tail_cons. reflexivity.
       + destruct (all_ok (map (jsconv_scalar o) es)) as [xs|]; [|reflexivity].
         cbn [forallb]. rewrite Efin. reflexivity.
   Qed.
@@ -543,7 +560,7 @@ Section LoopLemmas.
     walk_pairs o rec (length es) dk dv c (flat_map (fun e => encode (fst e) ++ encode (snd e)) es ++ r) =
     match keyed (map (fun e => key_of o (fst e)) es) (map (fun e => json_ofw o dv (snd e)) es) with
     | inr _ => None
-    | inl ms => if mem_finite ms then Some (obj_tail c (map (pm fd) ms), r) else None
+    | inl ms => if mem_finite ms then Some (obj_tail fd c ms, r) else None
     end.
   Proof.
     induction es as [|[k x] es IH]; intros c r HF.
@@ -551,31 +568,31 @@ Section LoopLemmas.
     - inversion HF as [|? ? [Hk Hx] HF']; subst. cbn [fst snd] in *.
       cbn [length walk_pairs flat_map map keyed fst snd]. rewrite <- !app_assoc. rewrite Hk.
       destruct (key_of o k) as [s|]; [|reflexivity].
-      rewrite Hx. unfold walk_spec, spec_text_fd.
+      rewrite Hx. unfold walk_spec, spec_text_p.
       destruct (json_ofw o dv x) as [e|e|cc]; [|reflexivity|reflexivity].
       destruct (jexp_finite e) eqn:Efin.
       + rewrite IH by exact HF'.
         destruct (keyed (map (fun e0 => key_of o (fst e0)) es) (map (fun e0 => json_ofw o dv (snd e0)) es)) as [ms|]; [|reflexivity].
         unfold mem_finite. cbn [forallb snd]. rewrite Efin. cbn [andb].
         fold (mem_finite ms). destruct (mem_finite ms); [|reflexivity].
-        cbn [map]. unfold pm at 2. cbn [fst snd]. rewrite <- obj_tail_cons. reflexivity.
+        rewrite <- obj_tail_cons. reflexivity.
       + destruct (keyed (map (fun e0 => key_of o (fst e0)) es) (map (fun e0 => json_ofw o dv (snd e0)) es)) as [ms|]; [|reflexivity].
         unfold mem_finite. cbn [forallb snd]. rewrite Efin. reflexivity.
   Qed.
 End LoopLemmas.
 
 (* ------------------------------------------------------------------ api.js_conv on one field *)
-Lemma walk_vm_ok fd o v d r : (forall b, forallb plain (fd b) = true) ->
+Lemma walk_vm_ok fd o v d r :
   wf v = true -> conforms v d = true -> desc_wf d = true ->
   walk_vm fd o d (encode v ++ r) = walk_spec fd (jsconv o v) r.
 Proof.
-  intros Hfd Hw Hc Hdw.
+  intros Hw Hc Hdw.
   assert (Scal : forall (t : nat), desc_type d = type_of v -> (match d with DList false _ => False | _ => True end) ->
                  (match v with VList _ _ => False | _ => True end) ->
                  walk_vm fd o d (encode v ++ r) = walk_spec fd (jsconv o v) r).
   { intros _ Ht Hd Hv. assert (E1 : walk_vm fd o d (encode v ++ r) = walk_vm_scalar fd o (desc_type d) (encode v ++ r)).
     { destruct d as [t|b|fs|dk dv|[|] de]; try reflexivity. destruct Hd. }
-    rewrite E1, Ht. rewrite (walk_vm_scalar_ok fd o v r Hfd Hw). destruct v; try reflexivity. destruct Hv. }
+    rewrite E1, Ht. rewrite (walk_vm_scalar_ok fd o v r Hw). destruct v; try reflexivity. destruct Hv. }
   destruct v as [b|z|z|z|z|z|s|vs|kt vt es|et es|et es].
   1-6: destruct d as [t|bb|fs|dk dv|ss de]; cbn [conforms type_of] in Hc; try discriminate Hc;
        apply andb_true_iff in Hc; destruct Hc as [_ Hc]; apply Z.eqb_eq in Hc; apply (Scal O); cbn [desc_type type_of]; auto.
@@ -607,10 +624,10 @@ Proof.
     pose proof (flat_map_length_ge encode es encode_nonempty) as Hge.
     destruct (Z.gtb_spec (zlen es) (zlen (flat_map encode es ++ r))); [unfold zlen in *; rewrite app_length in *; lia|].
     rewrite to_nat_zlen.
-    rewrite (walk_vm_elems_ok fd o (desc_type de) Hfd es false r).
-    + unfold walk_spec, spec_text_fd. cbn [jsconv].
+    rewrite (walk_vm_elems_ok fd o (desc_type de) es false r).
+    + unfold walk_spec, spec_text_p. cbn [jsconv].
       destruct (all_ok (map (jsconv_scalar o) es)) as [xs|]; [|reflexivity].
-      cbn [jexp_finite to_json_fd]. destruct (forallb jexp_finite xs); [|reflexivity]. rewrite print_arr. reflexivity.
+      cbn [jexp_finite]. destruct (forallb jexp_finite xs); [|reflexivity]. rewrite print_arr. reflexivity.
     + apply Forall_forall. intros x Hx. specialize (Hall x Hx). apply andb_true_iff in Hall. destruct Hall as [Ht Hwx].
       apply Z.eqb_eq in Ht. split; assumption.
 Qed.
@@ -619,8 +636,6 @@ Qed.
 Section Main.
   Variable fd : Z -> list Z.
   Variable o : Z.
-  (* a quoted double (api.js_conv) is printed as a JSON string: its lexeme must need no escaping *)
-  Hypothesis Hfd : o_value_mapping o = true -> forall b, forallb plain (fd b) = true.
 
   Lemma walk_scalar_eq n t bs : t2j_walk_gen fd o n (DScalar t) bs = walk_scalar fd o t bs.
   Proof. destruct n; reflexivity. Qed.
@@ -706,9 +721,9 @@ Section Main.
     destruct (Z.gtb_spec (zlen es) (zlen (flat_map encode es ++ r))); [unfold zlen in *; rewrite app_length in *; lia|].
     rewrite to_nat_zlen.
     rewrite (walk_elems_ok fd o (t2j_walk_gen fd o n) de es false r).
-    - unfold walk_spec, spec_text_fd.
+    - unfold walk_spec, spec_text_p.
       destruct (all_ok (map (json_ofw o de) es)) as [xs|]; [|reflexivity].
-      cbn [jexp_finite to_json_fd]. destruct (forallb jexp_finite xs); [|reflexivity]. rewrite print_arr. reflexivity.
+      cbn [jexp_finite]. destruct (forallb jexp_finite xs); [|reflexivity]. rewrite print_arr. reflexivity.
     - pose proof (fold_max_le depth es n Hd) as Hdep.
       rewrite Forall_forall in *. intros e Hin r'.
       destruct (Hgood e Hin) as [_ [Hwe Hse]].
@@ -747,8 +762,7 @@ Section Main.
           - destruct ss; vm_compute in Hty; discriminate Hty. }
         rewrite <- Tx. apply skip_go_encode. split; assumption.
       + intros r'. unfold fvalw. destruct (o_value_mapping o && f_jsconv (fst f)) eqn:Evm.
-        * apply andb_true_iff in Evm. destruct Evm as [Evm _].
-          apply walk_vm_ok; auto.
+        * apply walk_vm_ok; auto.
         * apply (IH iv Hin); auto.
     - intros r'. apply skip_go_encode. split; assumption.
   Qed.
@@ -771,10 +785,10 @@ Section Main.
       rewrite (walk_fields_ok fd o (t2j_walk_gen fd o n) (fun _ => false) fs vs).
       + rewrite json_ofw_struct_eq. unfold unset_members.
         rewrite (unset_walk_bm_eq o fs (map fst vs) (sort_flds fs) (In_sort_flds fs)).
-        unfold walk_spec, spec_text_fd.
+        unfold walk_spec, spec_text_p.
         destruct (members_of (map (fstepw o (fun _ => false) fs) vs)) as [ms|]; [|reflexivity].
         destruct (unset_walk o (sort_flds fs) (map fst vs)) as [us|] eqn:Eu; [|destruct (mem_finite ms); reflexivity].
-        cbn [jexp_finite to_json_fd]. rewrite forallb_app. fold (mem_finite ms). fold (mem_finite us).
+        cbn [jexp_finite]. rewrite forallb_app. fold (mem_finite ms). fold (mem_finite us).
         rewrite (unset_walk_finite o _ _ us Eu), andb_true_r.
         destruct (mem_finite ms); [|reflexivity]. rewrite print_obj. reflexivity.
       + apply fields_obligations; auto. intros f _ Hf. discriminate Hf.
@@ -798,9 +812,9 @@ Section Main.
         [unfold zlen in *; rewrite app_length in *; lia|].
       rewrite to_nat_zlen.
       rewrite (walk_pairs_ok fd o (t2j_walk_gen fd o n) dk dv es false r).
-      + unfold walk_spec, spec_text_fd. cbn [json_ofw].
+      + unfold walk_spec, spec_text_p. cbn [json_ofw].
         destruct (keyed (map (fun e => key_of o (fst e)) es) (map (fun e => json_ofw o dv (snd e)) es)) as [ms|]; [|reflexivity].
-        cbn [jexp_finite to_json_fd]. fold (mem_finite ms). destruct (mem_finite ms); [|reflexivity].
+        cbn [jexp_finite]. fold (mem_finite ms). destruct (mem_finite ms); [|reflexivity].
         rewrite print_obj. reflexivity.
       + pose proof (fold_max_le (fun e : tval * tval => Nat.max (depth (fst e)) (depth (snd e))) es n Hd) as Hdep.
         rewrite Forall_forall in *. intros e Hin.
@@ -866,26 +880,66 @@ Lemma exact_lexeme_plain b : forallb plain (f64_exact_lexeme b) = true.
 Proof. apply num_okb_plain, num_okb_f64_exact. Qed.
 
 (* all modelled options at once (value mapping, write options): the walk prints the spec tree json_ofw *)
+(* with escape-free lexemes the direct print is the canonical print of the JSON AST of the tree *)
+Section Bridge.
+  Variable fd : Z -> list Z.
+  Hypothesis Hfd : forall b, forallb plain (fd b) = true.
+
+  Lemma eprint_tail_json l : Forall (fun e => jexp_print fd e = json_print (to_json_fd fd e)) l ->
+    eprint_tail (jexp_print fd) l = print_tail json_print 93 (map (to_json_fd fd) l).
+  Proof.
+    induction l as [|y l IH]; intros HF; [reflexivity|]. inversion HF as [|? ? Hy HF']; subst.
+    cbn [eprint_tail map print_tail]. rewrite Hy, (IH HF'). reflexivity.
+  Qed.
+
+  Lemma eprint_mems_json (l : list (list Z * jexp)) :
+    Forall (fun m => jexp_print fd (snd m) = json_print (to_json_fd fd (snd m))) l ->
+    eprint_mems (jexp_print fd) l ++ [125] = print_mtail json_print (map (fun m => (fst m, to_json_fd fd (snd m))) l).
+  Proof.
+    induction l as [|y l IH]; intros HF; [reflexivity|]. inversion HF as [|? ? Hy HF']; subst.
+    cbn [eprint_mems map print_mtail]. unfold eprint_member, print_member. cbn [fst snd]. rewrite Hy, <- (IH HF').
+    cbn [app]. f_equal. rewrite <- !app_assoc. reflexivity.
+  Qed.
+
+  Lemma jexp_print_json : forall e, jexp_print fd e = json_print (to_json_fd fd e).
+  Proof.
+    induction e as [b | z | b | s | e IH | s | z | xs IH | ms IH] using jexp_ind'; cbn [jexp_print to_json_fd json_print]; try reflexivity.
+    - destruct e; cbn [to_json_fd json_print] in *; try exact IH.
+      + rewrite quote_fmt_int. reflexivity.
+      + rewrite (quote_plain _ (Hfd bits)). reflexivity.
+      + cbn [jexp_print] in IH. destruct (to_json_fd fd e); exact IH.
+    - rewrite quote_fmt_int. reflexivity.
+    - destruct xs as [|x l]; [reflexivity|]. inversion IH as [|? ? Hx Hl]; subst.
+      cbn [map]. rewrite Hx, (eprint_tail_json l Hl). reflexivity.
+    - destruct ms as [|m l]; [reflexivity|]. inversion IH as [|? ? Hm Hl]; subst.
+      cbn [map]. unfold eprint_member, print_member. cbn [fst snd]. rewrite Hm, (eprint_mems_json l Hl). reflexivity.
+  Qed.
+
+  Lemma spec_text_p_fd t : spec_text_p fd t = spec_text_fd fd t.
+  Proof. destruct t as [e|e|c]; cbn [spec_text_p spec_text_fd]; try reflexivity. rewrite jexp_print_json. reflexivity. Qed.
+End Bridge.
+
+Lemma spec_text_p_exact t : spec_text_p f64_exact_lexeme t = spec_text t.
+Proof. rewrite (spec_text_p_fd f64_exact_lexeme exact_lexeme_plain). apply spec_text_fd_exact. Qed.
+
+(* all modelled options at once (value mapping, write options): the walk prints the spec tree json_ofw *)
 Theorem walk_refines_exact_w o v d n r :
   wf v = true -> conforms v d = true -> desc_wf d = true -> (depth v <= n)%nat -> (depth v <= max_skip_depth)%nat ->
   t2j_walk n o d (encode v ++ r) = walk_res (json_ofw o d v) r.
 Proof.
   intros Hw Hc Hdw Hd Hs. unfold t2j_walk.
-  rewrite (walk_refines_w f64_exact_lexeme o (fun _ => exact_lexeme_plain) v d n r Hw Hc Hdw Hd Hs).
-  unfold walk_spec, walk_res. rewrite spec_text_fd_exact. reflexivity.
+  rewrite (walk_refines_w f64_exact_lexeme o v d n r Hw Hc Hdw Hd Hs).
+  unfold walk_spec, walk_res. rewrite spec_text_p_exact. reflexivity.
 Qed.
 
-Lemma vm_off_hfd (fd : Z -> list Z) o : o_value_mapping o = false -> o_value_mapping o = true -> forall b, forallb plain (fd b) = true.
-Proof. intros H1 H2. rewrite H1 in H2. discriminate H2. Qed.
-
 (* the options of the first development: no value mapping, write options off: the spec is json_of *)
-Theorem walk_refines fd o : o_value_mapping o = false -> o_write_default o = false -> o_write_required o = false ->
+Theorem walk_refines fd o : o_write_default o = false -> o_write_required o = false ->
   forall v d n r, wf v = true -> conforms v d = true -> desc_wf d = true ->
   (depth v <= n)%nat -> (depth v <= max_skip_depth)%nat ->
   t2j_walk_gen fd o n d (encode v ++ r) = walk_spec fd (json_of o d v) r.
 Proof.
-  intros Hvm Hwd Hwr v d n r Hw Hc Hdw Hd Hs.
-  rewrite (walk_refines_w fd o (vm_off_hfd fd o Hvm) v d n r Hw Hc Hdw Hd Hs).
+  intros Hwd Hwr v d n r Hw Hc Hdw Hd Hs.
+  rewrite (walk_refines_w fd o v d n r Hw Hc Hdw Hd Hs).
   rewrite (json_ofw_off o Hwd Hwr). reflexivity.
 Qed.
 
@@ -981,8 +1035,8 @@ Qed.
 (* the root loop of do = the struct loop with the response base dropped (ConvertException off); error classes are not
    compared: both sides have no text *)
 Lemma root_walkw_text fd o fs : o_convert_exception o = false -> forall vs acc seen bs,
-  spec_text_fd fd (fst (root_walkw o fs vs acc seen bs)) =
-  spec_text_fd fd (match members_of (map (fstepw o (root_bx o) fs) vs) with
+  spec_text_p fd (fst (root_walkw o fs vs acc seen bs)) =
+  spec_text_p fd (match members_of (map (fstepw o (root_bx o) fs) vs) with
                    | inr c => TErr c
                    | inl ms => match unset_members o fs (rev (known_of fs (map fst vs)) ++ seen) with
                                | inr c => TErr c
@@ -1015,19 +1069,18 @@ Definition base_is_struct (d : tdesc) : Prop :=
   end.
 
 Theorem walk_root_refines fd o v d n r : o_convert_exception o = false ->
-  (o_value_mapping o = true -> forall b, forallb plain (fd b) = true) ->
   wf v = true -> conforms v d = true -> desc_wf d = true -> base_is_struct d ->
   (depth v <= n)%nat -> (depth v <= max_skip_depth)%nat ->
   t2j_walk_root fd o n d (encode v ++ r) = walk_spec fd (fst (t2j_specw o d v)) r.
 Proof.
-  intros Hce Hfd Hw Hc Hdw Hbs Hd Hs.
+  intros Hce Hw Hc Hdw Hbs Hd Hs.
   assert (Plain : forall d', (match d' with DStruct _ => False | _ => True end) -> conforms v d' = true -> desc_wf d' = true ->
             t2j_walk_root fd o n d' (encode v ++ r) = walk_spec fd (fst (t2j_specw o d' v)) r).
   { intros d' Hns Hc' Hdw'.
     assert (E1 : t2j_walk_root fd o n d' (encode v ++ r) = t2j_walk_gen fd o n d' (encode v ++ r))
       by (destruct d'; try reflexivity; destruct Hns).
     assert (E2 : fst (t2j_specw o d' v) = json_ofw o d' v) by (destruct d'; try reflexivity; destruct Hns).
-    rewrite E1, E2. exact (walk_refines_w fd o Hfd v d' n r Hw Hc' Hdw' Hd Hs). }
+    rewrite E1, E2. exact (walk_refines_w fd o v d' n r Hw Hc' Hdw' Hd Hs). }
   destruct d as [t|b|fs|dk dv|s de]; try (apply Plain; auto; exact I).
   destruct v as [ | | | | | | |vs| | | ]; try (cbn [conforms type_of] in Hc; try discriminate Hc;
     apply andb_true_iff in Hc; destruct Hc as [Hc _]; discriminate Hc).
@@ -1040,15 +1093,15 @@ Proof.
     rewrite (unset_walk_ext o (sort_flds fs) (rev (known_of fs (map fst vs))) (map fst vs)).
     2:{ intros f Hf. rewrite (is_present_in (rev (known_of fs (map fst vs))) (known_of fs (map fst vs))) by (intros x; symmetry; apply in_rev).
         apply is_present_known. exact (In_sort_flds fs f Hf). }
-    unfold spec_text_fd.
+    unfold spec_text_p.
     destruct (members_of (map (fstepw o (root_bx o) fs) vs)) as [ms|]; [|reflexivity].
     destruct (unset_walk o (sort_flds fs) (map fst vs)) as [us|] eqn:Eu; [|destruct (mem_finite ms); reflexivity].
-    cbn [jexp_finite to_json_fd]. rewrite forallb_app. fold (mem_finite ms). fold (mem_finite us).
+    cbn [jexp_finite]. rewrite forallb_app. fold (mem_finite ms). fold (mem_finite us).
     rewrite (unset_walk_finite o _ _ us Eu), andb_true_r.
     destruct (mem_finite ms); [|reflexivity]. rewrite print_obj. reflexivity.
-  - apply (fields_obligations fd o Hfd (root_bx o) fs vs n); auto.
+  - apply (fields_obligations fd o (root_bx o) fs vs n); auto.
     + intros f Hin Hb. apply (Hbs f Hin). unfold root_bx in Hb. apply andb_true_iff in Hb. exact (proj2 Hb).
-    + apply Forall_forall. intros f _. apply walk_refines_w. exact Hfd.
+    + apply Forall_forall. intros f _. apply walk_refines_w.
   - rewrite app_length. cbn [length].
     pose proof (flat_map_length_ge (fun f : Z * tval => type_of (snd f) :: enc_int 2 (fst f) ++ encode (snd f)) vs
       ltac:(intros; cbn [length]; lia)). lia.
@@ -1061,8 +1114,8 @@ Theorem walk_root_refines_exact o v d n r : o_convert_exception o = false ->
   t2j_walk_root f64_exact_lexeme o n d (encode v ++ r) = walk_res (fst (t2j_specw o d v)) r.
 Proof.
   intros Hce Hw Hc Hdw Hbs Hd Hs.
-  rewrite (walk_root_refines f64_exact_lexeme o v d n r Hce (fun _ => exact_lexeme_plain) Hw Hc Hdw Hbs Hd Hs).
-  unfold walk_spec, walk_res. rewrite spec_text_fd_exact. reflexivity.
+  rewrite (walk_root_refines f64_exact_lexeme o v d n r Hce Hw Hc Hdw Hbs Hd Hs).
+  unfold walk_spec, walk_res. rewrite spec_text_p_exact. reflexivity.
 Qed.
 
 (* without base extraction the root walk is doRecurse *)
@@ -1088,7 +1141,7 @@ Theorem t2j_text_is_spec_text o d v : walk_opts o = true -> o_write_default o = 
 Proof.
   unfold walk_opts. rewrite !andb_true_iff, !negb_true_iff. intros [[Hvm Hb] Hce] Hwd Hwr.
   assert (Hfst : spec_text (fst (t2j_spec o d v)) = spec_text (json_of o d v)).
-  { rewrite <- (t2j_specw_off o Hwd Hwr), <- (json_ofw_off o Hwd Hwr). rewrite <- !spec_text_fd_exact.
+  { rewrite <- (t2j_specw_off o Hwd Hwr), <- (json_ofw_off o Hwd Hwr). rewrite <- !spec_text_p_exact.
     unfold t2j_specw. destruct d as [t|b|fs|dk dv|s de]; try reflexivity.
     destruct v as [ | | | | | | |vs| | | ]; try reflexivity.
     rewrite (root_walkw_text f64_exact_lexeme o fs Hce). rewrite json_ofw_struct_eq. rewrite app_nil_r. cbn [rev app].
@@ -1227,3 +1280,109 @@ Proof.
   exists e. split; [reflexivity|]. split; [exact Ef|]. split; [reflexivity|]. split; [|reflexivity].
   apply model_text_parses. exact (json_ofw_bytes o v d e Hw Hdo E).
 Qed.
+
+(* ------------------------------------------------------------------ ConvertException at the root (PARTIAL) ----
+   [xwalk] is the root loop of do under ConvertException written over the DECODED fields (values by the spec functions
+   fvalw = json_ofw / jsconv, the unset scan by the bitmap): members, or the first exception field's tree with the members
+   handleUnsets appends, or an error.  [walk_fields_x_ok]: the byte loop computes exactly its text.
+   Missing for a full refinement: the identification of [xwalk] with T2JUnset.root_walkw's TExc branch (which has no unset
+   members and checks the finiteness of the members before the exception field). *)
+Inductive xres := XObj (ms : list (list Z * jexp)) | XExc (e : jexp) (us : list (list Z * jexp)) | XErr.
+
+Section ExcLoop.
+  Variable fd : Z -> list Z.
+  Variable o : Z.
+  Variable rec : tdesc -> list Z -> option (list Z * list Z).
+  Variable bx : fmeta -> bool.
+
+  Fixpoint xwalk (fs : list (fmeta * tdesc)) (vs : list (Z * tval)) (bm : list Z) : xres :=
+    match vs with
+    | [] => match unset_walk_bm o (sort_flds fs) bm with inl us => XObj us | inr _ => XErr end
+    | iv :: r =>
+      match find_field fs (fst iv) with
+      | None => if o_disallow_unknown o then XErr else xwalk fs r bm
+      | Some f =>
+        if bx (fst f) then xwalk fs r (bm_clear (fst iv) bm) else
+        match fvalw o f (snd iv) with
+        | TOk e =>
+          if jexp_finite e then
+            if negb (fst iv =? 0) then
+              match unset_walk_bm o (sort_flds fs) (bm_clear (fst iv) bm) with inl us => XExc e us | inr _ => XErr end
+            else match xwalk fs r (bm_clear (fst iv) bm) with
+                 | XObj ms => XObj ((f_key (fst f), e) :: ms)
+                 | other => other
+                 end
+          else XErr
+        | _ => XErr
+        end
+      end
+    end.
+
+  Definition xtext (c : bool) (x : xres) : option wres :=
+    match x with
+    | XObj ms => Some (WText (obj_tail fd c ms))
+    | XExc e us => Some (WExc (jexp_print fd e ++ obj_mems fd true us))
+    | XErr => None
+    end.
+
+  Lemma walk_fields_x_ok fs : forall vs fuel c bm r,
+    Forall (field_ok fd o rec bx fs) vs -> (length vs < fuel)%nat ->
+    walk_fields_x fd o rec bx fuel fs c bm
+      (flat_map (fun f => type_of (snd f) :: enc_int 2 (fst f) ++ encode (snd f)) vs ++ 0 :: r) =
+    xtext c (xwalk fs vs bm).
+  Proof.
+    induction vs as [|[id x] vs IH]; intros fuel c bm r HF Hfuel; destruct fuel as [|fuel]; try (cbn in Hfuel; lia).
+    - cbn [flat_map app walk_fields_x xwalk].
+      change (negb (valid_ttype 0)) with false. change (0 =? 0) with true. cbn iota.
+      rewrite walk_unsets_ok. destruct (unset_walk_bm o (sort_flds fs) bm); reflexivity.
+    - inversion HF as [|? ? [Hid Hx] HF']; subst. cbn [fst snd] in *.
+      cbn [flat_map walk_fields_x xwalk]. cbn [app fst snd].
+      rewrite valid_ttype_type_of. cbn [negb].
+      destruct (Z.eqb_spec (type_of x) 0) as [E0|_]; [exfalso; exact (valid_type_nonzero _ (type_of_valid x) E0)|].
+      rewrite <- !app_assoc.
+      rewrite (rd_int_sb 2 16) by (try lia; try reflexivity; exact Hid).
+      destruct (find_field fs id) as [f|] eqn:Ef.
+      + destruct (bx (fst f)).
+        * rewrite Hx. apply IH; [exact HF'|cbn in Hfuel; lia].
+        * rewrite Hx. unfold walk_spec, spec_text_p.
+          destruct (fvalw o f x) as [e|e|cc]; [|reflexivity|reflexivity].
+          destruct (jexp_finite e); [|reflexivity].
+          destruct (negb (id =? 0)).
+          -- rewrite walk_unsets_c_ok. destruct (unset_walk_bm o (sort_flds fs) (bm_clear id bm)) as [us|]; [|reflexivity].
+             cbn [xtext]. rewrite app_nil_r. reflexivity.
+          -- rewrite IH by (try exact HF'; cbn in Hfuel; lia).
+             destruct (xwalk fs vs (bm_clear id bm)) as [ms|e' us|]; cbn [xtext]; try reflexivity.
+             rewrite <- obj_tail_cons. reflexivity.
+      + destruct (o_disallow_unknown o); [reflexivity|].
+        rewrite Hx. apply IH; [exact HF'|cbn in Hfuel; lia].
+  Qed.
+End ExcLoop.
+
+(* do under ConvertException on the encoding of a conforming struct: the text is that of [xwalk] *)
+Theorem walk_rootx_refines_partial fd o fs vs n r : o_convert_exception o = true ->
+  wf (VStruct vs) = true -> conforms (VStruct vs) (DStruct fs) = true -> desc_wf (DStruct fs) = true -> base_is_struct (DStruct fs) ->
+  (depth (VStruct vs) <= S n)%nat -> (depth (VStruct vs) <= max_skip_depth)%nat ->
+  t2j_walk_rootx fd o (S n) (DStruct fs) (encode (VStruct vs) ++ r) =
+  match xwalk o (root_bx o) fs vs (bm_init fs) with
+  | XObj ms => Some (WText (jexp_print fd (EObj ms)))
+  | XExc e us => Some (WExc (jexp_print fd e ++ obj_mems fd true us))
+  | XErr => None
+  end.
+Proof.
+  intros Hce Hw Hc Hdw Hbs Hd Hs. cbn [depth] in Hd. apply le_S_n in Hd.
+  cbn [t2j_walk_rootx]. rewrite Hce. cbn [encode]. rewrite <- app_assoc. cbn [app].
+  rewrite (walk_fields_x_ok fd o (t2j_walk_gen fd o n) (root_bx o) fs vs).
+  - destruct (xwalk o (root_bx o) fs vs (bm_init fs)) as [ms|e us|]; cbn [xtext]; try reflexivity.
+    rewrite print_obj. reflexivity.
+  - apply (fields_obligations fd o (root_bx o) fs vs n); auto.
+    + intros f Hin Hb. apply (Hbs f Hin). unfold root_bx in Hb. apply andb_true_iff in Hb. exact (proj2 Hb).
+    + apply Forall_forall. intros f _. apply walk_refines_w.
+  - rewrite app_length. cbn [length].
+    pose proof (flat_map_length_ge (fun f : Z * tval => type_of (snd f) :: enc_int 2 (fst f) ++ encode (snd f)) vs
+      ltac:(intros; cbn [length]; lia)). lia.
+Qed.
+
+(* without ConvertException (or on a non-struct root) t2j_walk_rootx is t2j_walk_root *)
+Lemma walk_rootx_plain fd o n d bs : o_convert_exception o = false ->
+  t2j_walk_rootx fd o n d bs = match t2j_walk_root fd o n d bs with Some (t, _) => Some (WText t) | None => None end.
+Proof. intros Hce. unfold t2j_walk_rootx. destruct d; try reflexivity. destruct n; [reflexivity|]. rewrite Hce. reflexivity. Qed.
